@@ -30,6 +30,7 @@ METHODS = {
     "__delitem__": "MDelItem", "pop": "MPop", "popitem": "MPopItem", "clear": "MClear",
     "setdefault": "MSetDefault", "update": "MUpdate", "__ior__": "MIor", "__eq__": "MEq",
     "copy": "MCopy", "__len__": "MLen", "__contains__": "MContains",
+    "__or__": "MOr", "__ror__": "MRor", "__repr__": "MRepr",
 }
 # attributes of self that are configuration / statistics, not the shared structures
 BENIGN_ATTRS = {"max_size", "on_miss", "hit_count", "miss_count", "soft_miss_count", "__class__"}
